@@ -162,6 +162,75 @@ Definition sp_capacity (c : cfg) (st : astate) (nx : N) (v : nat) (want : option
       end
   end.
 
+(** ** drain with any consumption pattern *)
+
+(** which panic an invalid range gives: a bound + 1 that is not representable, else start > end or
+    end > len *)
+Definition bound_overflows (start_side : bool) (b : bound) : bool :=
+  match b, start_side with
+  | BExcluded i, true => usize_max <? i + 1
+  | BIncluded i, false => usize_max <? i + 1
+  | _, _ => false
+  end.
+Definition to_sb (b : bound) : sbound :=
+  match b with BUnbounded => SUnbounded | BIncluded i => SIncluded i | BExcluded i => SExcluded i end.
+Definition range_panic (sb eb : bound) : panic :=
+  if bound_overflows true sb || bound_overflows false eb then POverflow else PRange.
+
+(** the iterator's calls: [(true, k)] = next(), [(false, k)] = next_back(); the yielded value is
+    dropped ([KDrop]) or downcast and then dropped ([KDown]).  Cursor [i, j).  Result: the report of
+    every call (flag, value, size_hint after the call, values handed out), the values destroyed in
+    order, the final cursor.  [None]: a sink outside this fragment. *)
+Fixpoint sp_walk (xs : list N) (pat : list (bool * sink)) (i j : nat) : option (list N * list N * nat * nat) :=
+  match pat with
+  | [] => Some ([], [], i, j)
+  | (front, sk) :: rest =>
+      if (i =? j)%nat then
+        match sp_walk xs rest i j with
+        | Some (rets, ds, i', j') => Some (0 :: 0 :: N.of_nat (j - i) :: rets, ds, i', j')
+        | None => None
+        end
+      else
+        let idx := if front then i else (j - 1)%nat in
+        let i1 := if front then S i else i in
+        let j1 := if front then j else (j - 1)%nat in
+        let t := nth idx xs 0 in
+        match (match sk with KDrop => Some [] | KDown => Some [t] | _ => None end), sp_walk xs rest i1 j1 with
+        | Some out, Some (rets, ds, i', j') =>
+            Some (1 :: t :: N.of_nat (j1 - i1) :: out ++ rets, t :: ds, i', j')
+        | _, _ => None
+        end
+  end.
+
+Definition sp_drain (c : cfg) (st : astate) (nx : N) (v : nat) (sb eb : bound) (pat : list (bool * sink)) (f : fin)
+  : option sres :=
+  match get_a v st with
+  | None => None
+  | Some a =>
+      let xs := a_xs a in
+      match range_of_bounds usize_max (N.of_nat (length xs)) (to_sb sb) (to_sb eb) with
+      | None => Some (panic_res (range_panic sb eb) [] st nx)
+      | Some (s, e) =>
+          let s := N.to_nat s in let e := N.to_nat e in
+          match sp_walk xs pat s e with
+          | None => None
+          | Some (rets, ds, i, j) =>
+              let yielded := flat_map (drop_ev c) ds in
+              match f with
+              | FinDrop =>
+                  (* the un-yielded rest of the range is destroyed in order, the tail closes the gap *)
+                  Some (ok_res (N.of_nat (e - s) :: rets)
+                               (yielded ++ (if c_dg c then map EDrop (firstn (j - i) (skipn i xs)) else []))
+                               (set_a v (Some (with_xs a (VecSpec.sp_drain s e xs))) st) nx)
+              | FinForget =>
+                  (* leaked iterator: the vector keeps the elements in front of the range *)
+                  Some (ok_res (N.of_nat (e - s) :: rets) yielded
+                               (set_a v (Some (with_xs a (firstn s xs))) st) nx)
+              end
+          end
+      end
+  end.
+
 Definition spec_step (c : cfg) (st : astate) (nx : N) (o : op) : option sres :=
   match o with
   | ONew dst bk =>
@@ -202,6 +271,7 @@ Definition spec_step (c : cfg) (st : astate) (nx : N) (o : op) : option sres :=
       | None => None
       | Some a => Some (ok_res [] (if c_dg c then map EDrop (a_xs a) else []) (set_a v None st) nx)
       end
+  | ODrain _ v sb eb pat f => sp_drain c st nx v sb eb pat f
   | OReserve v n => sp_capacity c st nx v (Some n) false
   | OReserveExact v n => sp_capacity c st nx v (Some n) true
   | OShrinkToFit v => sp_capacity c st nx v None false
